@@ -148,8 +148,10 @@ type World struct {
 	Clk Clock
 
 	Name string
-	runs []*runRec
-	byID map[string]*runRec
+	// IgnoreCancel: the record store takes effect even when the caller's context is already cancelled (as memrecordstore does)
+	IgnoreCancel bool
+	runs         []*runRec
+	byID         map[string]*runRec
 
 	outbox []outEntry
 	outN   int
@@ -219,7 +221,7 @@ func (w *World) call(ctx context.Context, label string, eff func() (string, erro
 	defer w.mu.Unlock()
 	proc := w.S.Current()
 	w.Mon.adapterCall(ctx, proc, label)
-	if ctx != nil && ctx.Err() != nil {
+	if ctx != nil && ctx.Err() != nil && !(w.IgnoreCancel && (label == "store" || label == "lookup" || label == "latest")) {
 		w.ob("%s~", label)
 		return ctx.Err()
 	}
